@@ -102,13 +102,69 @@ def run(vc):
                 note="2 pi f c' 1e-9 l Z_N == BR_B (inverse of the line build)")
         p.prove("line:in_service", truth_z(k["in_service"].e) == (G("BR_STATUS") != 0), meta=dict(part="line"))
     vc.explore("_from_ppc_branch[lines]", h_lines, max_paths=100)
+    run_gen(vc)
 
 
 def classify(ob, model):
     return ob.meta.get("part", "")
 
 
+def run_gen(vc):
+    """_from_ppc_gen: the ext_grid / gen created from a ppc gen row regulates its bus to the VG of that very row. (to_ppc writes the machine of
+    a bus first and -- in OPF mode -- the controllable sgens / loads / storages of the bus after it with a placeholder VG: the rows of one bus
+    need not agree.)  _gen_to_which (assumed contract, from its text): a row becomes an ext_grid / gen only if it is the first gen row of its
+    bus."""
+    ig = consts("pandapower.pypower.idx_gen"); iu = consts("pandapower.pypower.idx_bus")
+
+    def h(p):
+        gsp = Space.get("ppcgen")
+        gen = Mat("gen", {"all": gsp})
+        for nm in ("VG", "PG", "QG", "MBASE", "GEN_STATUS", "PMAX", "PMIN", "QMAX", "QMIN"):
+            pm.colfun(gen, "all", getattr(ig, nm))
+        pm.colfun(gen, "all", ig.GEN_BUS, I)
+        bus = pm.bus_mat()
+        pm.colfun(bus, "all", iu.VA)
+        bus_pos = Arr(gsp, SV(z3.Function("bus_pos", I, I)(gsp.i)))
+        is_eg, is_gen, is_sgen = (Arr(gsp, SV(z3.Function(f"is_{k}", I, B)(gsp.i))) for k in ("ext_grid", "gen", "sgen"))
+        # assumed contract of _gen_to_which: machines are the first gen rows of their buses
+        r = z3.Int("r!earlier")
+        first = z3.ForAll([r], z3.Implies(z3.And(r >= 0, r < gsp.i), z3.Function("bus_pos", I, I)(r) != z3.Function("bus_pos", I, I)(gsp.i)))
+        p.assume(z3.Implies(z3.Or(to_z(is_eg.e), to_z(is_gen.e)), first))
+        p.assume(z3.And(gsp.i >= 0, gsp.i < gsp.n))
+        me = p.it.modenv(FP)
+        me.vals["_get_bus_pos"] = Native(lambda it, ppc, b: bus_pos, name="_get_bus_pos")
+        me.vals["_gen_to_which"] = Native(lambda it, ppc, bus_pos=None, **k: (is_eg, is_gen, is_sgen), name="_gen_to_which")
+        made = {"ext_grid": [], "gen": [], "sgen": []}
+        me.vals["create_ext_grid"] = Native(lambda it, net_, **k: made["ext_grid"].append(k) or Opaque("idx"), name="create_ext_grid", pure=False)
+        me.vals["create_gens"] = Native(lambda it, net_, **k: made["gen"].append(k) or Opaque("idx"), name="create_gens", pure=False)
+        me.vals["create_sgens"] = Native(lambda it, net_, **k: made["sgen"].append(k) or Opaque("idx"), name="create_sgens", pure=False)
+        nb = pm.table("bus", {"vn_kv": R})
+        net = netmodel.Net({"bus": nb}, strict=False)
+        p.it.generic_loops = True
+        out = p.call(f"{FP}:_from_ppc_gen", net, PDict({"gen": gen, "bus": bus}))
+        if out.raised:
+            raise EngineError(f"_from_ppc_gen raised {out.exc!r}")
+        vg = to_z(gen.get("all", ig.VG), R)
+        meta = dict(part="gen")
+        p.prove("gen:one call per element kind", len(made["gen"]) == 1 and len(made["ext_grid"]) <= 1, meta=meta)
+        for kw in made["ext_grid"]:
+            p.prove("gen:ext_grid regulates to the VG of its own ppc row", z3.Implies(to_z(is_eg.e), to_z(kw["vm_pu"], R) == vg), meta=meta)
+        for kw in made["gen"]:
+            v = kw["vm_pu"]
+            ok = isinstance(v, Arr) and v.space is gsp
+            p.prove("gen:gens are created from the gen rows", ok, meta=meta)
+            if ok:
+                m = z3.BoolVal(True) if v.mask is True else v.mask
+                p.prove("gen:gen regulates to the VG of its own ppc row", z3.And(m == to_z(is_gen.e), z3.Implies(to_z(is_gen.e), to_z(v.e, R) == vg)), meta=meta,
+                        note="the voltage set point of the created gen is VG of the row it is created from, whatever later rows of the bus hold")
+    vc.explore("_from_ppc_gen", h, max_paths=60)
+
+
 def replay(ob, model, finding=None):
+    if ob.meta.get("part") == "gen":
+        return {"script": f"# replay of {ob.id}\nfrom replaylib.ppcroundtrip import main_costs\nmain_costs()\n",
+                "description": "to_ppc -> from_ppc round trip of a network with cost data and a controllable sgen at the bus of a gen / ext_grid whose "
+                               "vm_pu is not 1: bus voltages, slack power"}
     return {"script": f"# replay of {ob.id}\nfrom replaylib.ppcroundtrip import main\nmain()\n",
             "description": "to_ppc -> from_ppc round trip of networks with lines, transformers (ratio, phase shift, also between buses of one voltage "
                            "level) and impedances: bus voltages, slack power and losses"}
